@@ -20,6 +20,9 @@ struct ModRec {
 struct Boom {
     uint32_t id;
 };
+struct BoomStd: public std::runtime_error, public Boom {  // same fault, derived from std::exception
+    explicit BoomStd(uint32_t i): std::runtime_error("boom"), Boom{i} {}
+};
 struct Act {
     char kind;  // M modify, R read
     int form;   // R: 0 lock_shared 1 try 2 try_for 3 try_until
@@ -80,7 +83,10 @@ int main(int argc, char** argv)
                                 vrf::tl_vt_label = static_cast<int>(a.id);
                                 c.check("functor");
                                 for (int i = 0; i < a.hold; i++) vrf::user_point();
-                                if (++invocation == a.throw_at) throw Boom{a.id};  // 1st: rolled back, 2nd: completed from the other copy
+                                if (++invocation == a.throw_at) {  // 1st: rolled back, 2nd: completed from the other copy
+                                    if (a.id % 2) throw BoomStd(a.id);
+                                    throw Boom{a.id};
+                                }
                                 c.append_raw(a.id);
                                 functor_calls.fetch_add(1, std::memory_order_relaxed);
                             });
